@@ -5,6 +5,7 @@ import Karp.Spec.Reserved
 import Karp.Spec.ReservedLedger
 import Karp.Model.DraTracker
 import Karp.Model.DraBudget
+import Karp.Model.DraCapacity
 import Karp.Spec.DraExclusive
 import Karp.Driver.ReqJson
 
@@ -390,13 +391,32 @@ def entryJ (j : Json) : Except String Karp.Spec.DraExclusive.Entry := do
   let cls := if drv == "gpu.example.com" then "gpu" else if drv == "tmpl.example.com" then "tmpl" else if drv == "shared.example.com" then "shared"
     else if drv == "part.example.com" then "part" else if drv == "tpart.example.com" then "tpart" else drv
   pure { claim := ← strF j "claim", nc := ← strF j "nc", it := ← strF j "it", dev := ← strF j "dev", pool := (← strO j "pool").getD "", cls := cls,
-         template := ← boolD j "template" false, consumed := ← intF j "consumed" }
+         template := ← boolD j "template" false,
+         consumed := [("mem", ← intF j "consumed")] ++ (match ← intO j "consumedBw" with | some v => [("bw", v)] | none => []) }
 
+/-- a capacity request of 0 in the protocol = the request has no entry for the dimension -/
 def claimSpecJ (j : Json) : Except String Karp.Spec.DraExclusive.ClaimSpec := do
-  pure { name := ← strF j "name", cls := ← strF j "class", count := ← natF j "count", cap := (← intO j "cap").getD 0 }
+  let cap := (← intO j "cap").getD 0
+  let bw := (← intO j "bw").getD 0
+  pure { name := ← strF j "name", cls := ← strF j "class", count := ← natF j "count",
+         reqs := (if cap != 0 then [("mem", cap)] else []) ++ (if bw != 0 then [("bw", bw)] else []) }
 
-def sharedJ (j : Json) : Except String (String × Int × Int) := do
-  pure ((← strF j "name"), (← intF j "cap"), (← intO j "pre").getD 0)
+/-- one capacity dimension: `cap`, `pre`, and the request policy `def` / `values` / `range`+`min`,`max`,`step`
+    (0 = unset for def, max, step) -/
+def sdimJ (dim : String) (j : Json) : Except String Karp.Spec.DraExclusive.SDim := do
+  let nz (o : Option Int) : Option Int := match o with | some 0 => none | x => x
+  let values ← (match fldOpt j "values" with | none => pure [] | some .null => pure [] | some v => listOf asInt v)
+  let hasRange ← boolD j "range" false
+  let mn := (← intO j "min").getD 0
+  let mx ← intO j "max"
+  let stp ← intO j "step"
+  let range := if hasRange then some (mn, nz mx, nz stp) else none
+  pure { dim := dim, cap := ← intF j "cap", pre := (← intO j "pre").getD 0, default := nz (← intO j "def"), values := values, range := range }
+
+def sharedJ (j : Json) : Except String Karp.Spec.DraExclusive.SDev := do
+  let mem ← sdimJ "mem" j
+  let more ← (match fldOpt j "bw" with | none => pure [] | some .null => pure [] | some b => do pure [← sdimJ "bw" b])
+  pure { name := ← strF j "name", dims := mem :: more }
 
 def partJ (j : Json) : Except String (String × Int × Bool) := do
   pure ((← strF j "name"), (← intF j "w"), (← boolD j "pre" false))
@@ -422,6 +442,9 @@ def allocClass (why : String) : String :=
   if has "shared counter of pool" then "alloc:counter-overconsumed"
   else if has "template counter of" then "alloc:template-counter-overconsumed"
   else if has "exceeds its capacity" then "alloc:capacity-overconsumed"
+  else if has "is accounted" then "alloc:share-accounting"
+  else if has "violates the device's request policy" then "alloc:policy-violated"
+  else if has "does not have, yet" then "alloc:nonexistent-dimension"
   else if has "remaining counter budget" then "alloc:counter-accounting"
   else if has "tracker accounts" then "alloc:capacity-accounting"
   else "alloc"
@@ -455,6 +478,20 @@ def templatePools (inp : Json) : Except String (List Karp.Spec.DraExclusive.TPoo
       let parts ← (match fldOpt j "parts" with | none => pure [] | some pv => listOf partJ pv)
       pure ({ it := it, slots := (← intO j "slots").getD 0, parts := parts.map (fun d => (d.1, d.2.1)) } : Karp.Spec.DraExclusive.TPool))
   | _ => pure []
+
+/-- the consumable-capacity model on the shares the allocator handed out: for every dimension of the device
+    `computeConsumedCapacity` (model) must not fail and must give what the implementation reports -/
+def shareModelWhy (shared : List Karp.Spec.DraExclusive.SDev) (claims : List Karp.Spec.DraExclusive.ClaimSpec)
+    (entries : List Karp.Spec.DraExclusive.Entry) : Option String :=
+  (entries.filter (·.cls == "shared")).findSome? (fun e =>
+    match shared.find? (·.name == e.dev), claims.find? (·.name == e.claim) with
+    | some sd, some c =>
+      sd.dims.findSome? (fun d =>
+        let got := (e.consumed.lookup d.dim).getD 0
+        match Karp.DraCapacity.consumedDim (c.reqs.lookup d.dim) (Karp.DraCapacity.Dim.ofFields d.cap d.default d.values d.range) with
+        | none => some s!"claim {c.name} got {e.dev} although computeConsumedCapacity (model) fails for {d.dim}"
+        | some want => if want != got then some s!"claim {c.name} on {e.dev}: computeConsumedCapacity (model) gives {want} of {d.dim}, the implementation reports {got}" else none)
+    | _, _ => none)
 
 def opAlloc (inp impl : Json) : Except String Resp := do
   let prealloc ← (match fldOpt inp "prealloc" with | none => pure [] | some v => strList v)
@@ -495,11 +532,14 @@ def opAlloc (inp impl : Json) : Except String Resp := do
       | some w => specWhy := some s!"op {i}: {w}"
       | none =>
         -- the tracker's pessimistic accounting of shared capacity equals the worst case of the published allocations
-        let inflight ← match fldOpt st "inflight" with
+        let inflightOf (k : String) : Except String (List (String × Int)) := match fldOpt st k with
           | some (.obj kvs) => kvs.toList.mapM (fun (k, v) => do pure (k, ← asInt v))
           | _ => pure []
-        match shared.find? (fun (d, _) => (inflight.lookup d).getD 0 != Karp.Spec.DraExclusive.worstCase entries d) with
-        | some (d, _) => specWhy := some s!"op {i}: the tracker accounts {(inflight.lookup d).getD 0} of {d} as consumed, the published allocations amount to {Karp.Spec.DraExclusive.worstCase entries d}"
+        let inflight := [("mem", ← inflightOf "inflight"), ("bw", ← inflightOf "inflightBw")]
+        let accounted (dev dim : String) : Int := (((inflight.lookup dim).getD []).lookup dev).getD 0
+        match shared.findSome? (fun sd => sd.dims.findSome? (fun d =>
+            if accounted sd.name d.dim != Karp.Spec.DraExclusive.worstCase claims entries sd.name d then some (sd, d) else none)) with
+        | some (sd, d) => specWhy := some s!"op {i}: the tracker accounts {accounted sd.name d.dim} of {d.dim} of {sd.name} as consumed, the published allocations amount to {Karp.Spec.DraExclusive.worstCase claims entries sd.name d}"
         | none =>
           -- … and so does its remaining shared-counter budget, for every pool it tracks: counter − what the partitions
           -- in use in the cluster consume − worst case of the published allocations
@@ -512,6 +552,10 @@ def opAlloc (inp impl : Json) : Except String Resp := do
           | some p => specWhy := some s!"op {i}: the tracker's remaining counter budget of pool {p.name} is {(counters.lookup p.name).getD 0}; counter {p.slots} − in use in the cluster {p.preConsumed} − worst-case consumption of the published allocations {Karp.Spec.DraExclusive.worstCounter p entries} = {p.slots - p.preConsumed - Karp.Spec.DraExclusive.worstCounter p entries}"
           | none => pure ()
     -- model
+    if modelWhy.isNone then
+      match shareModelWhy shared claims entries with
+      | some w => modelWhy := some s!"op {i}: {w}"
+      | none => pure ()
     if modelWhy.isNone then
       if kind == "allocate" then
         if result == "ok" then
@@ -611,7 +655,9 @@ def opDraPass (inp impl : Json) : Except String Resp := do
   let verdict := match Karp.Spec.DraExclusive.metaOK prealloc shared pools (← templatePools inp) claims entries with
     | some w => some w
     | none => Karp.Spec.DraExclusive.passComplete claims podClaims ncs entries
-  pure { allowed := some true, spec := some verdict.isNone, why := verdict.getD "",
+  let modelWhy := shareModelWhy shared claims entries
+  pure { allowed := some modelWhy.isNone, spec := some verdict.isNone,
+         why := verdict.getD "" ++ (match modelWhy with | some w => " | model: " ++ w | none => ""),
          extra := verdict.map (fun w => jObj [("signature", jStr ("drapass" ++ ((allocClass w).drop 5).toString))]) }
 
 def handle : Handler := fun op inp impl =>
